@@ -75,7 +75,7 @@ fn planted(n: usize) -> BoxedStrategy<(Tt, usize)> {
 }
 
 fn strategy(_t: Tier) -> BoxedStrategy<Case> {
-    arb_fam_n(1, 12)
+    arb_fam_n(1, 13)
         .prop_flat_map(|(fam, n)| planted(n).prop_map(move |(f, planted)| Case { fam, f, planted }))
         .boxed()
 }
